@@ -118,6 +118,9 @@ def handle (op : String) (j : Json) : Option (M Json) :=
   | "spec.C01" => some do
       let b ← hexField j "bytes"
       pure (okJ (Json.mkObj [("root_and_severed", .bool (Spec.check1 hashById b)), ("recursive", .bool (Spec.checkRec hashById 8 b))]))
+  | "cbor.strict" => some do
+      -- is the input one definite-length shortest-form item (recursively into nothing: the item itself)?
+      pure (okJ (.bool (decodeStrict (← hexField j "bytes")).isSome))
   | "suit.hash" => some do
       pure (okHex (hashFn (← strField j "alg") (← hexField j "data")))
   | _ => none
